@@ -27,3 +27,21 @@ Theorem C09_deadlock_free : forall ab c0 ts s, initial_threads ts -> reachable a
   all_done s = false -> some_enabled ab s.
 Proof. exact C09_progress. Qed.
 Print Assumptions C09_deadlock_free.
+
+(* ---- with contents: along every execution of the protocol (any threads, any schedule), projected onto the storage engine, the
+   current state is the reference after ALL committed transactions in commit order -- each commit built on its predecessor, none
+   lost -- and the header's transaction id counts them ---- *)
+From Coq Require Import NArith.
+From Jamm Require Bytes Engine EngineAbs EngineR EngineReadersInv ConcEngine ConcEngineTop.
+Theorem C09_no_commit_is_lost : forall (ops_of : nat -> list Engine.op * list Bytes.bytes) (c0 : nat)
+    (ts : list Conc.thread) (st0 : Engine.db) (sched : list nat) (h' : EngineR.hstate),
+  Conc.initial_threads ts -> EngineReadersInv.db_okr st0 -> Engine.d_tx st0 = N.of_nat c0 ->
+  let s0 := Conc.init c0 ts in
+  let es := ConcEngine.project ops_of s0 ConcEngine.ghost0 sched in
+  let s := Conc.run true s0 sched in
+  ConcEngine.g_ok (st0, nil) es -> ConcEngine.run_g (st0, nil) es = Engine.Ok h' ->
+  EngineReadersInv.db_okr (fst h') /\ Engine.d_tx (fst h') = N.of_nat (Conc.cur s) /\
+  Conc.cur s = c0 + length (ConcEngine.txs_of es) /\
+  EngineAbs.abs_db (fst h') = ConcEngine.sem_commits (ConcEngine.txs_of es) (EngineAbs.abs_db st0).
+Proof. exact ConcEngineTop.conc_engine_no_lost_update. Qed.
+Print Assumptions C09_no_commit_is_lost.
